@@ -197,6 +197,17 @@ def check_wellformed(acc, text: str) -> list[dict]:
             if [id(e) for e in got2] != [id(e) for e in exp2]:
                 vs.append(mk("C16:find-by-name-and-class", text, [repr(e) for e in exp2],
                              [repr(e) for e in got2]))
+        # several classes at once: an element matches when it carries all of them
+        for i, k1 in enumerate(klasses):
+            for k2 in klasses[i + 1:]:
+                exp2 = [e for e in exp if {k1, k2} <= set(e.attrs.get("class", "").split())]
+                for q in ([k1, k2], [k2, k1]):
+                    got2 = list(root.find(name, classes=q))
+                    if [id(e) for e in got2] != [id(e) for e in exp2]:
+                        vs.append(mk("C16:find-by-name-and-classes", text, [repr(e) for e in exp2],
+                                     [repr(e) for e in got2]))
+        if [id(e) for e in root.find(name, classes=[])] != [id(e) for e in exp]:
+            vs.append(mk("C16:find-by-name-and-no-classes", text, len(exp), "differs"))
         for k, v in attr_items:
             exp3 = [e for e in exp if e.attrs.get(k, "") == v]
             got3 = list(root.find(name, attrs={k: v}))
@@ -250,7 +261,7 @@ soup = st.lists(st.one_of(st.sampled_from(FRAGMENTS), st.sampled_from(FRAGMENTS)
 text_data = st.text(alphabet=st.sampled_from("abc xyz\n\t.,;:!?'\"=/-é中>"), min_size=1, max_size=8)
 ws_data = st.sampled_from([" ", "\n", "  \n ", "\t"])
 attr_value = st.one_of(
-    st.sampled_from(["", "a", "a b", "admonition note", "x.png", "#t", "1", " a ", "a'b", "<>", "a\nb", "None"]),
+    st.sampled_from(["", "a", "a b", "a b", "b a c", "b", "admonition note", "x.png", "#t", "1", " a ", "a'b", "<>", "a\nb", "None"]),
     st.text(alphabet=st.sampled_from("abc xyz-_.:/#'<>=\n"), max_size=6),
 )
 
@@ -305,6 +316,41 @@ def sub_wf(acc, shard, nshards, tier, seed):
             seed=shard_seed(seed, shard, 7), is_known=known().matches)
 
 
+def check_history(acc, pair) -> list[dict]:
+    """The result for a document does not depend on what was parsed before it in the same process: parse an
+    arbitrary (typically truncated / unterminated) string first, then hold the well-formed document to the full oracle."""
+    from myst_parser.parsers.parse_html import tokenize_html
+
+    before, text = pair
+    for conv in (False, True):
+        try:
+            with watchdog(20):
+                tokenize_html(before, convert_charrefs=conv)
+        except Exception:  # noqa: BLE001  (the soup sub-check owns crashes on the first string)
+            pass
+    vs = check_wellformed(None, text)
+    for v in vs:
+        v["input"] = [before, text]
+        v["signature"] = v["signature"] + ":after-earlier-input"
+    if acc is not None:
+        unterminated = before.rstrip()[-1:] not in (">", "") or before.count("<") != before.count(">")
+        acc.case(repr(pair), unterminated and bool(text), ["earlier-unterminated" if unterminated else "earlier-closed"],
+                 sample=[before, text])
+    return vs
+
+
+TRUNCATED = ["text <di", "x &am", "x &#3", '<a href="x', "<!-- open", "<script>var x", "<![CDATA[ x", "<?pi x", "<!DOCTYPE",
+             "<div class=", "</di", "<style>a{", "<p", "&", "<"]
+history = st.tuples(st.one_of(st.sampled_from(TRUNCATED), soup, wellformed.map(lambda t: t[: max(0, len(t) - 3)])),
+                    wellformed.filter(bool))
+
+
+def sub_history(acc, shard, nshards, tier, seed):
+    n = 400 if tier == "quick" else 15000
+    hyp_run(acc, history, lambda p: check_history(acc, p), max_examples=n,
+            seed=shard_seed(seed, shard, 11), is_known=known().matches)
+
+
 # exhaustive forests: labels; 'T' labels may have children
 LABELS = [("T", "a"), ("T", "b"), ("V", "<br>"), ("X", "<c/>"), ("D", "x"), ("D", " "),
           ("C", "<!--c-->"), ("E", "&amp;"), ("T", 'a class="k"')]
@@ -355,14 +401,17 @@ def sub_atheris(acc, shard, nshards, tier, seed):
 
 
 def plan(tier):
-    subs = [Sub("soup", sub_soup, 8), Sub("wellformed", sub_wf, 12), Sub("enum", sub_enum, 12)]
+    subs = [Sub("soup", sub_soup, 8), Sub("wellformed", sub_wf, 12), Sub("enum", sub_enum, 12),
+            Sub("history", sub_history, 4)]
     if tier == "thorough":
         subs = [Sub("soup", sub_soup, 16), Sub("wellformed", sub_wf, 16), Sub("enum", sub_enum, 16),
-                Sub("atheris", sub_atheris, 4)]
+                Sub("history", sub_history, 8), Sub("atheris", sub_atheris, 4)]
     return subs
 
 
 def replay(sub, input):
     if sub in ("soup", "atheris"):
         return check_soup(None, input)
+    if sub == "history":
+        return check_history(None, tuple(input))
     return check_wellformed(None, input)
